@@ -610,3 +610,238 @@ pub fn run_c11(report: &mut Report, budget: Duration) {
     report.set("rule", "6 IRR databases (nested / cyclic / self-referencing / empty as-sets, ASes with v4 only, v6 only, both, none, duplicate route objects, nested route-sets, a filter-set with two objects) x every expression of a bounded grammar (atoms: as-set, aut-num, route-set, filter-set, literal prefix sets with every range operator, range operators applied to named sets; all binary AND/OR of atoms, AND NOT forms, depth-2 trees in the thorough tier), rendered fully parenthesised, each on a fresh connection of the real RpslEvaluator against the fake IRRd; oracle: per-prefix membership over a universe of two IPv4 and two IPv6 trees decided directly from the database; non-trivial = expressions whose set is neither empty nor the whole universe");
     report.assume("recursive set expansion is done by the IRRd (here: the fake), as the client asks for ',1' expansion; nested range operators are not generated");
 }
+
+// ---------------- C17 ----------------
+type EvalResult = Result<Ranges, String>;
+
+fn norm(r: &EvalResult) -> String {
+    match r {
+        Ok(r) => format!("OK {}", r.iter().map(|(p, lo, hi)| format!("{}^{lo}-{hi}", p.render())).collect::<Vec<_>>().join(" ")),
+        // error texts may mention connection-specific details: compare only the class
+        Err(e) => format!("ERR {}", e.split(':').next().unwrap_or("")),
+    }
+}
+
+/// Evaluate a history on ONE evaluator (one IRR connection) inside a guarded thread.
+fn run_history(port: u16, exprs: &[String], timeout: Duration) -> Result<Vec<EvalResult>, String> {
+    let (tx, rx) = std::sync::mpsc::channel();
+    let exprs = exprs.to_vec();
+    _ = std::thread::Builder::new().stack_size(8 << 20).spawn(move || {
+        let r = match RpslEvaluator::new("127.0.0.1", port) {
+            Ok(mut ev) => Ok(exprs.iter().map(|e| evaluate_with(&mut ev, e)).collect::<Vec<_>>()),
+            Err(e) => Err(format!("CONNECT: {e:#}")),
+        };
+        _ = tx.send(r);
+    });
+    rx.recv_timeout(timeout).unwrap_or_else(|_| Err("TIMEOUT".into()))
+}
+
+pub fn c17_alphabet() -> Vec<Ex> {
+    vec![
+        Ex::AsSet("AS-A".into()),
+        Ex::AutNum("AS65001".into()),
+        Ex::RouteSet("RS-X".into()),
+        Ex::FilterSet("FLTR-F".into()),
+        Ex::And(Box::new(Ex::AsSet("AS-A".into())), Box::new(Ex::AsSet("AS-B".into()))),
+        Ex::AsSet("AS-GONE".into()),
+        Ex::AutNum("AS65004".into()),
+        Ex::Ranged(Box::new(Ex::Lit(vec![("192.0.2.0/24".into(), Op::None)])), Op::Plus),
+    ]
+}
+
+pub fn run_c17(report: &mut Report, budget: Duration) {
+    let thorough = report.tier.thorough();
+    let deadline = Instant::now() + budget;
+    let alpha: Vec<String> = c17_alphabet().iter().map(Ex::render).collect();
+    let n = alpha.len();
+    // histories: all sequences up to the length bound
+    let max_len = if thorough { 4 } else { 3 };
+    let mut histories: Vec<Vec<usize>> = Vec::new();
+    let mut layer: Vec<Vec<usize>> = vec![vec![]];
+    for _ in 0..max_len {
+        layer = layer.iter().flat_map(|h| (0..n).map(move |i| { let mut g = h.clone(); g.push(i); g })).collect();
+        histories.extend(layer.iter().cloned());
+    }
+    if false {
+        // a slice of the length-3 histories: every member pair repeated around a failing middle member
+        for a in 0..n {
+            for b in 0..n {
+                histories.push(vec![a, 5, b]);
+                histories.push(vec![a, b, a]);
+            }
+        }
+    }
+    let model = base_model(0);
+    let faults = [Fault::NotFound, Fault::NotUnique, Fault::Other];
+    // reference: every member alone on a fresh connection, without and with each local fault
+    let reference_irrd = Irrd::start(model.db.clone());
+    let mut fresh: BTreeMap<(usize, Option<(usize, u8)>), String> = BTreeMap::new();
+    let mut queries_of: Vec<usize> = Vec::new();
+    for (i, e) in alpha.iter().enumerate() {
+        reference_irrd.set_plan(Plan::default());
+        _ = reference_irrd.take_log();
+        let r = run_history(reference_irrd.port, &[e.clone()], Duration::from_secs(20)).map(|mut v| v.remove(0)).unwrap_or_else(Err);
+        let q = reference_irrd.take_log().len();
+        queries_of.push(q);
+        _ = fresh.insert((i, None), norm(&r));
+        for l in 0..q {
+            for (fi, f) in faults.iter().enumerate() {
+                reference_irrd.set_plan(Plan { faults: vec![(None, l, *f)], fault_on_query: vec![] });
+                let r = run_history(reference_irrd.port, &[e.clone()], Duration::from_secs(20)).map(|mut v| v.remove(0)).unwrap_or_else(Err);
+                _ = fresh.insert((i, Some((l, fi as u8))), norm(&r));
+            }
+        }
+        _ = reference_irrd.take_log();
+    }
+    drop(reference_irrd);
+    struct Bad {
+        key: String,
+        what: String,
+        case: Value,
+    }
+    let fresh = &fresh;
+    let queries_of = &queries_of;
+    let alpha_ref = &alpha;
+    let results: Vec<(u64, u64, Vec<Bad>, Vec<Value>, bool)> = histories
+        .par_chunks(histories.len() / 16 + 1)
+        .map(|chunk| {
+            let irrd = Irrd::start(model.db.clone());
+            let mut bad: Vec<Bad> = Vec::new();
+            let mut samples = Vec::new();
+            let (mut runs, mut steps) = (0u64, 0u64);
+            let mut capped = false;
+            for h in chunk {
+                if Instant::now() > deadline {
+                    capped = true;
+                    break;
+                }
+                let exprs: Vec<String> = h.iter().map(|i| alpha_ref[*i].clone()).collect();
+                // injection plans: none, and one fault of each kind at each query of each member
+                let mut plans: Vec<Option<(usize, usize, u8)>> = vec![None]; // (member position, local index, fault)
+                for (pos, i) in h.iter().enumerate() {
+                    for l in 0..queries_of[*i] {
+                        for fi in 0..faults.len() as u8 {
+                            plans.push(Some((pos, l, fi)));
+                        }
+                    }
+                }
+                for plan in plans {
+                    // the global query index of the fault: members before `pos` run unfaulted, so
+                    // their query counts are the reference counts
+                    let global = plan.map(|(pos, l, _)| h[..pos].iter().map(|i| queries_of[*i]).sum::<usize>() + l);
+                    irrd.set_plan(match (plan, global) {
+                        (Some((_, _, fi)), Some(g)) => Plan { faults: vec![(None, g, faults[fi as usize])], fault_on_query: vec![] },
+                        _ => Plan::default(),
+                    });
+                    let got = run_history(irrd.port, &exprs, Duration::from_secs(30));
+                    runs += 1;
+                    let log = irrd.take_log();
+                    let case = json!({"history": exprs, "fault": plan.map(|(pos, l, fi)| json!({"member": pos, "query_index_within_member": l, "answer": format!("{:?}", faults[fi as usize])})), "query_log": log.iter().map(|l| format!("{} -> {}", l.query, l.answer)).collect::<Vec<_>>()});
+                    match got {
+                        Err(e) => bad.push(Bad { key: format!("C17:history-does-not-complete:{}", e.split(':').next().unwrap_or("")), what: format!("the history did not complete: {e}"), case }),
+                        Ok(results) => {
+                            if samples.is_empty() && plan.is_some() && h.len() == 2 {
+                                samples.push(json!({"history": exprs, "fault": format!("{plan:?}"), "results": results.iter().map(norm).collect::<Vec<_>>()}));
+                            }
+                            for (pos, r) in results.iter().enumerate() {
+                                steps += 1;
+                                let local = plan.and_then(|(p, l, fi)| (p == pos).then_some((l, fi)));
+                                let want = fresh.get(&(h[pos], local)).cloned().unwrap_or_default();
+                                let have = norm(r);
+                                if have != want {
+                                    let after_failure = results[..pos].iter().any(Result::is_err);
+                                    bad.push(Bad {
+                                        key: format!("C17:result-depends-on-history:{}{}", if after_failure { "after-failed-evaluation" } else { "after-successful-evaluations" }, if plan.is_some() { ":with-injected-error" } else { "" }),
+                                        what: format!("member {pos} ('{}') of the history evaluates to {have:?}, on a fresh connection to {want:?}", exprs[pos]),
+                                        case: case.clone(),
+                                    });
+                                    break;
+                                }
+                            }
+                        }
+                    }
+                    if bad.len() > 40 {
+                        break;
+                    }
+                }
+            }
+            (runs, steps, bad, samples, capped)
+        })
+        .collect();
+    let (mut runs, mut steps) = (0u64, 0u64);
+    let mut capped_any = false;
+    for (r, s, bad, samples, capped) in results {
+        runs += r;
+        steps += s;
+        capped_any |= capped;
+        for b in bad {
+            report.violation(&b.key, &b.what, b.case);
+        }
+        for s in samples {
+            report.sample(s);
+        }
+    }
+    report.set("states", (fresh.len() as u64).max(1));
+    report.set("transitions", steps);
+    report.set("traces_validated_against_impl", runs);
+    report.set("histories", histories.len() as u64);
+    report.set("reference_results", fresh.len() as u64);
+    report.set("max_history_length", max_len as u64);
+    report.set("exhaustive", !capped_any);
+    report.set("rule", "every sequence of expressions (alphabet of 8: as-set, aut-num, route-set, filter-set with two objects, AND of two as-sets, unknown as-set, AS without routes, literal) up to the length bound, evaluated on ONE real RpslEvaluator, without faults and with one injected IRR error answer (D, E, F) at every query index of every member; differential oracle: every member's result equals the result of the same expression with the same fault on a fresh connection (reference results = states); transitions = evaluations compared");
+    report.assume("connection loss after the first response is not injected: irrc spins on EOF (dependency), see DESIGN");
+}
+
+// ---------------- C03 / C15: evaluation part ----------------
+/// Unobtainable prefix data must make the evaluation FAIL (never yield a smaller set), and the
+/// agent's evaluation stage must then report 'no ranges' for that policy only.
+pub fn unobtainable_cases(report: &mut Report, id: &str) -> u64 {
+    use crate::junos::{managed_stmt, render_running};
+    use bgpfu_junos_agent::verif::evaluate as agent_evaluate;
+    let model = base_model(0);
+    let irrd = Irrd::start(model.db.clone());
+    let mut n = 0u64;
+    let faults: Vec<(&str, Plan)> = vec![
+        ("unknown as-set", Plan::default()),
+        ("D answer to the as-set query", Plan { faults: vec![], fault_on_query: vec![("!iAS-A".into(), Fault::NotFound)] }),
+        ("E answer to the as-set query", Plan { faults: vec![], fault_on_query: vec![("!iAS-A".into(), Fault::NotUnique)] }),
+        ("F answer to the as-set query", Plan { faults: vec![], fault_on_query: vec![("!iAS-A".into(), Fault::Other)] }),
+    ];
+    for (what, plan) in faults {
+        let target = if what == "unknown as-set" { "AS-GONE" } else { "AS-A" };
+        for expr in [target.to_string(), format!("({target} OR AS-B)"), format!("({target} AND {{ 192.0.2.0/24^+ }})"), format!("(AS65002 OR {target})")] {
+            n += 1;
+            irrd.set_plan(plan.clone());
+            let r = evaluate_guarded(irrd.port, &expr, Duration::from_secs(20));
+            let case = json!({"expression": expr, "condition": what});
+            if let Ok(ranges) = &r {
+                report.violation(&format!("{id}:evaluation-succeeds-without-data:{}", what.replace(' ', "-")), &format!("'{expr}' with {what} evaluated to {} ranges instead of failing", ranges.len()), case.clone());
+            }
+            // the agent's evaluation stage: the failing policy has no ranges, the others are evaluated
+            let running = render_running(&[managed_stmt("bad", &expr), managed_stmt("good", "AS65002"), managed_stmt("good2", "AS-B")], "1");
+            match agent_evaluate(&running, "127.0.0.1", irrd.port) {
+                Ok(entries) => {
+                    for (name, _, ranges) in &entries {
+                        if name == "bad" && ranges.is_some() {
+                            report.violation(&format!("{id}:agent-treats-missing-data-as-evaluated:{}", what.replace(' ', "-")), &format!("policy 'bad' ({expr}) with {what} was evaluated to {ranges:?}"), case.clone());
+                        }
+                        if name != "bad" && ranges.is_none() {
+                            report.violation(&format!("C15:other-policy-not-evaluated:{}", what.replace(' ', "-")), &format!("policy '{name}' was not evaluated because policy 'bad' ({expr}) could not be"), case.clone());
+                        }
+                    }
+                    if entries.len() != 3 {
+                        report.violation(&format!("{id}:candidate-lost"), &format!("expected 3 evaluated entries, got {entries:?}"), case.clone());
+                    }
+                }
+                Err(e) => report.violation("C15:agent-evaluation-stage-fails", &format!("the agent's evaluation stage failed as a whole: {e}"), case.clone()),
+            }
+        }
+    }
+    // IRR unreachable: nothing listening
+    n += 1;
+    let dead_port = { let l = std::net::TcpListener::bind("127.0.0.1:0").unwrap(); l.local_addr().unwrap().port() };
+    if RpslEvaluator::new("127.0.0.1", dead_port).is_ok() {
+        report.violation(&format!("{id}:connect-to-dead-irrd-succeeds"), "connecting to a closed port succeeded", json!({}));
+    }
+    n
+}
